@@ -105,12 +105,20 @@ def classification(repo, res, a):
         ok &= n_other >= 1
         region = ast.Module(body=a.nary, type_ignores=[])
         conv = [c for c in ast.walk(region) if isinstance(c, ast.Call) and isinstance(c.func, ast.Attribute) and c.func.attr in ("to", "in_units") and c.args and norm(c.args[0]) == "inputs[0].units"]
+        # the iteration over the inputs: a for statement or (normal form N11) a comprehension; the conversion sits in the
+        # arm taken when the element is a unyt_array
         loops = [n_ for n_ in ast.walk(region) if isinstance(n_, ast.For) and norm(n_.iter) == "inputs"]
-        ok &= len(conv) == 1 and len(loops) == 1
-        if ok:
+        comps = [n_ for n_ in ast.walk(region) if isinstance(n_, ast.ListComp) and len(n_.generators) == 1 and norm(n_.generators[0].iter) == "inputs"]
+        ok &= len(conv) == 1 and len(loops) + len(comps) == 1
+        if ok and loops:
             lp = loops[0]
             guards = [i_ for i_ in ast.walk(lp) if isinstance(i_, ast.If) and norm(i_.test) == f"isinstance({norm(lp.target)}, unyt_array)" and any(c is conv[0] for c in ast.walk(ast.Module(body=i_.body, type_ignores=[])))]
             ok = len(guards) == 1
+        elif ok:
+            cp = comps[0]
+            tgt = norm(cp.generators[0].target)
+            guards = [i_ for i_ in ast.walk(cp.elt) if isinstance(i_, ast.IfExp) and norm(i_.test) == f"isinstance({tgt}, unyt_array)" and any(c is conv[0] for c in ast.walk(i_.body))]
+            ok = len(guards) == 1 and not cp.generators[0].ifs
     res.check(ok, "three-input-form", fn.where(), "with three inputs only clip is accepted and every quantity is converted to the first input's unit (raises on mismatch)", rid=r1)
 
 
